@@ -99,8 +99,26 @@ def nontrivial_dist(probs: dict) -> bool:
     return len(big) >= 3 and max(big) - min(big) > 0.02
 
 
+def guarded_sampler(sampler, what):
+    def run(seed, shots):
+        try:
+            return sampler(seed, shots)
+        except (Violation, PiquassoException):
+            raise
+        except Exception as e:  # noqa: BLE001 — a sampler must not crash on a valid state
+            import traceback
+
+            tb = traceback.extract_tb(e.__traceback__)[-1]
+            raise Violation(f"C02:{what}:sampler-crash:{type(e).__name__}",
+                            f"sampling {shots} shots (seed {seed}) raised {type(e).__name__}: "
+                            f"{str(e)[:200]} at {tb.filename.split('/')[-1]}:{tb.name}")
+
+    return run
+
+
 def check_discrete(sampler, probs, what, ctx, n1):
     """sampler(seed, shots) -> list of tuples.  probs: exact law (dict outcome->p)."""
+    sampler = guarded_sampler(sampler, what)
     s1 = sampler(101, n1)
     structural(s1, probs, n1, what)
     c = {}
